@@ -245,6 +245,26 @@ func searchRun[T cmp.Ordered](s []T, p T, predIdx int, r *pbt.R) error {
 		}
 	}
 	ctx := func() string { return fmt.Sprintf("s=%#v p=%#v pred=(%s)", s, p, predNames[predIdx]) }
+	// The helpers see a window w of a longer array: behind it (spare capacity of w, but elements of the caller's array) sits
+	// the probe value itself. Reading it would change the answers, writing there (or into w) changes the caller's data.
+	var other T // a value different from the probe, if the case has one
+	for _, v := range s {
+		if v != p {
+			other = v
+		}
+	}
+	buf := make([]T, n+3)
+	copy(buf, s)
+	for i := n; i < len(buf); i++ {
+		// probe, other, probe or other, probe, other: a read behind the window finds the probe, a write of the probe shows
+		if (i-n+nMatch)%2 == 0 {
+			buf[i] = p
+		} else {
+			buf[i] = other
+		}
+	}
+	tail := append([]T(nil), buf[n:]...)
+	w := buf[:n]
 
 	var (
 		io, lio, fi, fli      int
@@ -254,25 +274,31 @@ func searchRun[T cmp.Ordered](s []T, p T, predIdx int, r *pbt.R) error {
 	what := ""
 	if err := try(func() string { return what + " with " + ctx() }, func() {
 		what = "IndexOf"
-		io = gogu.IndexOf(s, p)
+		io = gogu.IndexOf(w, p)
 		what = "LastIndexOf"
-		lio = gogu.LastIndexOf(s, p)
+		lio = gogu.LastIndexOf(w, p)
 		what = "Contains"
-		contains = gogu.Contains(s, p)
+		contains = gogu.Contains(w, p)
 		what = "FindIndex"
-		fi = gogu.FindIndex(s, pred)
+		fi = gogu.FindIndex(w, pred)
 		what = "FindLastIndex"
-		fli = gogu.FindLastIndex(s, pred)
+		fli = gogu.FindLastIndex(w, pred)
 		what = "FindAll"
-		all = gogu.FindAll(s, pred)
+		all = gogu.FindAll(w, pred)
 		what = "Some"
-		some = gogu.Some(s, pred)
+		some = gogu.Some(w, pred)
 		what = "Every"
-		every = gogu.Every(s, pred)
+		every = gogu.Every(w, pred)
 	}); err != nil {
 		return err
 	}
 
+	for i := range buf {
+		want := s0(s, tail, i)
+		if buf[i] != want {
+			return fmt.Errorf("after the search helpers ran on the window [:%d] of an array of %d elements, element %d of the array reads %#v, was %#v; %s", n, len(buf), i, buf[i], want, ctx())
+		}
+	}
 	if err := checkIndex("IndexOf", io, eq, true, ctx); err != nil {
 		return err
 	}
@@ -326,6 +352,13 @@ func searchRun[T cmp.Ordered](s []T, p T, predIdx int, r *pbt.R) error {
 		r.Label("first match != last match")
 	}
 	return nil
+}
+
+func s0[T any](s, tail []T, i int) T {
+	if i < len(s) {
+		return s[i]
+	}
+	return tail[i-len(s)]
 }
 
 func searchProp(c searchCase, r *pbt.R) error {
@@ -1856,7 +1889,7 @@ func TestProp(t *testing.T) {
 			Name: "search",
 			Rule: "IndexOf/LastIndexOf/Contains with a probe value p and FindIndex/FindLastIndex/FindAll/Some/Every with one of the predicates (v==p, v!=p, v<p, v>=p, true, false), " +
 				"decided by the definitions (smallest/largest matching index or -1, exact index->value map, quantifiers). Element types int, string (decimal text, 0 -> \"\") and float64 (v/4), no NaN. " +
-				"Enumerated: every slice up to length 6 (thorough 8) over {0..3} x every probe in -1..4 x every predicate x every element type; random: up to 40 (150) elements of width 2..1e6, probe mostly taken from the slice. " +
+				"Enumerated: every slice up to length 6 (thorough 8) over {0..3} x every probe in -1..4 x every predicate x every element type; random: up to 40 (150) elements of width 2..1e6, probe mostly taken from the slice. The helpers are handed a window of a longer array whose three elements behind the window hold the probe value and another value of the case in turn: the answers must not depend on them and the whole array must read the same afterwards. " +
 				"Non-trivial = the probe value occurs at least twice, or the predicate holds for some but not all elements. Distinct = enumerated cases (injective) + hash-distinct random cases outside the enumerated scope.",
 			Enum: searchEnum, Gen: searchGen, Prop: searchProp, OutOfEnum: searchOut,
 			RapidQuick: 1500, RapidThorough: 20000,
